@@ -31,6 +31,7 @@ type c11RunReq struct {
 	r    *c11Req
 	inst *muxInstance
 	tg   string
+	ip   string
 	rec  *httptest.ResponseRecorder
 	done chan struct{}
 	fin  bool
@@ -72,7 +73,7 @@ func (rp *c11Replay) launch(rr *c11RunReq) {
 			close(rr.done)
 		}()
 		if rr.tg == "srv" {
-			rr.inst.serveHTTP(rr.rec, c11NewHTTPRequest(rr.r.id))
+			rr.inst.serveHTTP(rr.rec, c11NewHTTPRequest(rr.r.id, rr.ip))
 			rr.r.status = rr.rec.Code
 		} else {
 			rr.r.status = rp.w.c11Direct(rr.r, rr.tg)
@@ -93,7 +94,7 @@ func (rp *c11Replay) step(st vx.M) string {
 	case "start":
 		rp.nreq++
 		id := fmt.Sprintf("%s-%d", vx.Str(st["r"]), rp.nreq)
-		rr := &c11RunReq{r: c11NewReq(id, true), tg: vx.Str(st["tg"]), rec: httptest.NewRecorder()}
+		rr := &c11RunReq{r: c11NewReq(id, true), tg: vx.Str(st["tg"]), ip: vx.Str(st["ip"]), rec: httptest.NewRecorder()}
 		rp.reqs[vx.Str(st["r"])] = rr
 		if rr.tg != "srv" { // a direct request starts at GetHandler: run it up to the mapper gate
 			c11Cur.Store(rr.r)
@@ -105,16 +106,23 @@ func (rp *c11Replay) step(st vx.M) string {
 	case "load":
 		rr := rp.reqs[vx.Str(st["r"])]
 		rr.inst = w.mux.inst.Load().(*muxInstance)
-		if g := c11GenOfInst(rr.inst); g != vx.Int(st["g"]) {
-			return fmt.Sprintf("m.inst.Load() returned generation %d, model says %d", g, vx.Int(st["g"]))
+		if rv, ov := c11GenOfInst(rr.inst); rv != vx.Int(st["rv"]) || ov != vx.Int(st["ov"]) {
+			return fmt.Sprintf("visibility: m.inst.Load() returned rules v%d / options v%d, model says v%d / v%d", rv, ov, vx.Int(st["rv"]), vx.Int(st["ov"]))
 		}
 	case "route":
 		rr := rp.reqs[vx.Str(st["r"])]
 		c11Cur.Store(rr.r)
 		rp.launch(rr)
-		if p := rp.waitReq(rr); p != "get:"+vx.Str(st["be"]) {
-			return fmt.Sprintf("request routed to %q (status %d), model says backend %s of generation %d", p, rr.r.status,
-				vx.Str(st["be"]), vx.Int(st["g"]))
+		p := rp.waitReq(rr)
+		if vx.Bool(st["blocked"]) {
+			if p != "finished" || rr.r.status != 403 {
+				return fmt.Sprintf("mixed: client %s is refused by the options of the held generation, real request: %q status %d", rr.ip, p, rr.r.status)
+			}
+			return ""
+		}
+		if p != "get:"+vx.Str(st["be"]) {
+			return fmt.Sprintf("mixed: request routed to %q (status %d), model says backend %s of rules v%d", p, rr.r.status,
+				vx.Str(st["be"]), vx.Int(st["rv"]))
 		}
 	case "get":
 		rr := rp.reqs[vx.Str(st["r"])]
@@ -135,32 +143,50 @@ func (rp *c11Replay) step(st vx.M) string {
 			return fmt.Sprintf("request entered %s version %d, model says %s version %d", o.Pipe, o.Value, vx.Str(st["p"]), vx.Int(st["ver"]))
 		}
 		if rr.tg == "srv" {
-			if g := c11GenOfPath(o.Path); g != vx.Int(st["g"]) || o.XFF != vx.Bool(st["xf"]) {
-				return fmt.Sprintf("request rewritten to %s with xff=%v, model says generation %d with xff=%v", o.Path, o.XFF,
-					vx.Int(st["g"]), vx.Bool(st["xf"]))
+			if g := c11GenOfPath(o.Path); g != vx.Int(st["rv"]) || o.XFF != vx.Bool(st["xf"]) {
+				return fmt.Sprintf("mixed: request rewritten to %s with xff=%v, model says rules v%d with xff=%v", o.Path, o.XFF,
+					vx.Int(st["rv"]), vx.Bool(st["xf"]))
 			}
 		}
-	case "run":
+	case "run", "enter", "exit":
+		// run: release the marker before filter i, the filter runs, the request stops at the next marker
+		// enter: the same for a filter that calls out - the request stops inside the backend
+		// exit: the backend answers, the request stops at the next marker
 		rr := rp.reqs[vx.Str(st["r"])]
 		i := vx.Int(st["i"])
+		next := fmt.Sprintf("mark%d", i+1)
+		if a == "enter" {
+			next = "backend"
+		}
 		rp.release(rr)
 		p := rp.waitReq(rr)
+		failed := p == "finished" && (rr.r.panicV != "" || rr.r.status != 200)
 		if !vx.Bool(st["ok"]) {
-			if p != "finished" || rr.r.panicV == "" {
-				return fmt.Sprintf("model (implementation-shaped) predicts a failure in filter %s, real request is at %q", vx.Str(st["k"]), p)
+			// the implementation-shaped layer says this step *may* fail (observed Inherit/Close modes): a real
+			// failure is reported through its fail record; if the real request survives, it is left to finish
+			if !failed && p != "finished" {
+				rr.r.ungate()
+				for p != "finished" && p != "stuck" {
+					p = rp.waitReq(rr)
+				}
 			}
 			return ""
 		}
-		if p == "finished" && rr.r.panicV != "" {
+		if failed && rr.r.panicV != "" {
 			return fmt.Sprintf("panic: filter #%d (%s) of pipeline version %d: panic in %s: %s", i, vx.Str(st["k"]), vx.Int(st["ver"]),
 				rr.r.site, rr.r.panicV)
 		}
-		if p != fmt.Sprintf("mark%d", i+1) {
-			return fmt.Sprintf("after filter #%d the request is at %q (status %d)", i, p, rr.r.status)
+		if failed {
+			return fmt.Sprintf("status: filter #%d (%s) of pipeline version %d: the request ended with status %d", i, vx.Str(st["k"]), vx.Int(st["ver"]), rr.r.status)
 		}
-		obs := rr.r.snapshot()
-		if o := obs[len(obs)-1]; o.Value != vx.Int(st["ver"]) {
-			return fmt.Sprintf("mixed: marker %d shows pipeline version %d, the request holds version %d", o.Pos, o.Value, vx.Int(st["ver"]))
+		if p != next {
+			return fmt.Sprintf("after step %s of filter #%d the request is at %q (status %d)", a, i, p, rr.r.status)
+		}
+		if a != "enter" {
+			obs := rr.r.snapshot()
+			if o := obs[len(obs)-1]; o.Value != vx.Int(st["ver"]) {
+				return fmt.Sprintf("mixed: marker %d shows pipeline version %d, the request holds version %d", o.Pos, o.Value, vx.Int(st["ver"]))
+			}
 		}
 	case "done":
 		rr := rp.reqs[vx.Str(st["r"])]
@@ -176,17 +202,17 @@ func (rp *c11Replay) step(st vx.M) string {
 			return fmt.Sprintf("status: request ended with status %d panic %q (%s), model says 200", rr.r.status, rr.r.panicV, rr.r.site)
 		case want == "503" && (rr.r.status != 503 || rr.r.panicV != ""):
 			return fmt.Sprintf("status: request ended with status %d panic %q, model says 503", rr.r.status, rr.r.panicV)
-		case want == "fail" && rr.r.panicV == "":
-			return fmt.Sprintf("model (implementation-shaped) predicts a failure, real request ended with status %d", rr.r.status)
+		case want == "403" && rr.r.status != 403:
+			return fmt.Sprintf("mixed: request ended with status %d, model says 403", rr.r.status)
 		}
 		c11Reqs.Delete(rr.r.id)
 		delete(rp.reqs, vx.Str(st["r"]))
 	case "srvBuild":
-		rp.specs[vx.Int(st["g"])] = c11ServerYAML(vx.Int(st["g"]))
+		rp.specs[vx.Int(st["g"])] = c11ServerYAML(vx.Int(st["rv"]), vx.Int(st["ov"]))
 	case "srvStore":
 		w.mux.reload(c11MustSpec(rp.specs[vx.Int(st["g"])]), w.mapper)
-		if g := c11GenOfInst(w.mux.inst.Load().(*muxInstance)); g != vx.Int(st["g"]) {
-			return fmt.Sprintf("after reload m.inst holds generation %d, model says %d", g, vx.Int(st["g"]))
+		if rv, ov := c11GenOfInst(w.mux.inst.Load().(*muxInstance)); rv != vx.Int(st["rv"]) || ov != vx.Int(st["ov"]) {
+			return fmt.Sprintf("visibility: after reload m.inst holds rules v%d / options v%d, model says v%d / v%d", rv, ov, vx.Int(st["rv"]), vx.Int(st["ov"]))
 		}
 	case "pipBegin", "createInit":
 		p, ver := vx.Str(st["p"]), vx.Int(st["ver"])
@@ -330,9 +356,13 @@ func TestVerifC11Replay(t *testing.T) {
 			steps++
 			bad := rp.step(st)
 			for name, rr := range rp.reqs { // every real failure is reported, predicted by the model or not
-				if rr.fin && rr.r.panicV != "" && !rr.told {
+				if rr.fin && !rr.told && (rr.r.panicV != "" || (rr.r.status != 200 && rr.r.status != 403 && !(rr.r.status == 503 && !rr.r.found))) {
 					rr.told = true
-					out.Raw(vx.M{"k": "fail", "b": bi, "step": si, "r": name, "site": rr.r.site, "panic": rr.r.panicV, "at": st, "behaviour": beh[:si+1]})
+					site, pv := rr.r.site, rr.r.panicV
+					if pv == "" {
+						site, pv = fmt.Sprintf("status %d", rr.r.status), fmt.Sprintf("request ended with status %d", rr.r.status)
+					}
+					out.Raw(vx.M{"k": "fail", "b": bi, "step": si, "r": name, "site": site, "panic": pv, "at": st, "behaviour": beh[:si+1]})
 				}
 			}
 			if bad != "" {
